@@ -52,7 +52,7 @@ const (
 	// HEADERS and its CONTINUATION frames are separate Connection.Write calls and DATA writes of other
 	// streams take no lock: a DATA frame can land inside a header block.
 	sigInterleave = "flow/frame-of-another-stream-written-inside-HEADERS-CONTINUATION-block"
-	maxWindow               = 1<<31 - 1
+	maxWindow     = 1<<31 - 1
 )
 
 type pipeConn struct {
@@ -156,25 +156,25 @@ type fstream struct {
 }
 
 type flowRun struct {
-	rt        *rapid.T
-	role      string
-	conn      *pipeConn
-	cc        *mhttp2.MClientConn
-	sc        *mhttp2.MServerConn
-	in        buffer.IoBuffer // MOSN's read buffer
-	peerOut   bytes.Buffer    // what the peer writes (frames for MOSN)
-	pfr       *xhttp2.Framer  // peer writer
-	rfr       *xhttp2.Framer  // peer reader (over what MOSN wrote)
-	rbuf      bytes.Buffer
-	raw       []byte // everything MOSN wrote (after the preface)
-	prefaceOK bool
-	mfs       uint32 // SETTINGS_MAX_FRAME_SIZE in force: 16384 until the peer's SETTINGS was delivered (it is delivered before any stream starts)
-	iws       int64
-	connCred  int64
-	streams   []*fstream
-	byID      map[uint32]*fstream
-	script    []string
-	newMS     []*mhttp2.MStream
+	rt           *rapid.T
+	role         string
+	conn         *pipeConn
+	cc           *mhttp2.MClientConn
+	sc           *mhttp2.MServerConn
+	in           buffer.IoBuffer // MOSN's read buffer
+	peerOut      bytes.Buffer    // what the peer writes (frames for MOSN)
+	pfr          *xhttp2.Framer  // peer writer
+	rfr          *xhttp2.Framer  // peer reader (over what MOSN wrote)
+	rbuf         bytes.Buffer
+	raw          []byte // everything MOSN wrote (after the preface)
+	prefaceOK    bool
+	mfs          uint32 // SETTINGS_MAX_FRAME_SIZE in force: 16384 until the peer's SETTINGS was delivered (it is delivered before any stream starts)
+	iws          int64
+	connCred     int64
+	streams      []*fstream
+	byID         map[uint32]*fstream
+	script       []string
+	newMS        []*mhttp2.MStream
 	settingsAcks int
 }
 
@@ -464,7 +464,7 @@ func minInt(a, b int) int {
 }
 
 var flowWindows = []int64{-1, 0, 1, 100, 16384, 65535, maxWindow} // -1: no INITIAL_WINDOW_SIZE in the first SETTINGS
-var flowFrameSizes = []uint32{0, 16384, 20000, 1<<24 - 1}          // 0: no MAX_FRAME_SIZE announced
+var flowFrameSizes = []uint32{0, 16384, 20000, 1<<24 - 1}         // 0: no MAX_FRAME_SIZE announced
 var bodySizes = []int{0, 1, 100, 16383, 16384, 16385, 65535, 65536, 65537, 100000, 200000, 300 << 10}
 var increments = []int64{1, 1, 2, 100, 16383, 16384, 16385, 65535, 70000, 1 << 20, maxWindow}
 
